@@ -222,6 +222,9 @@ def gen_config(rng):
             cfg["cli"] = None  # then env must win over pyproject
     envk = rng.choice(["plain", "plain", "plain", "ci", "ci_pycharm", "n2", "n0"])
     cfg["envk"] = envk
+    # pytest started in another directory with the project as path argument (shortcut options are looked up in the
+    # invocation directory, so configurations that use one stay in the project root)
+    cfg["invocation"] = "other-directory" if not cfg["shortcut"] and rng.random() < 0.2 else "root"
     if envk == "ci":
         cfg["ci"] = rng.choice(CI_VARS)
     elif envk == "ci_pycharm":
@@ -275,11 +278,16 @@ def check_session(cfg, variant, out, C):
     exp = approval_model(cfg)
     proj = session.Project(files, with_vp=False)
     try:
-        r = session.run_session(proj, args, env=env, stdin=stdin, timeout=180)
+        if cfg.get("invocation") == "other-directory":
+            args = args + ["../.."]
+            C["sessions_started_in_other_directory"] = C.get("sessions_started_in_other_directory", 0) + 1
+            r = session.run_session(proj, args, env=env, stdin=stdin, timeout=180, cwd_sub="started/elsewhere")
+        else:
+            r = session.run_session(proj, args, env=env, stdin=stdin, timeout=180)
     finally:
         proj.close()
     C["sessions"] += 1
-    wit = {"files": {k: (v.decode() if isinstance(v, bytes) else v) for k, v in files.items()}, "args": args, "env": env, "stdin": stdin.decode(), "config": cfg, "model": {k: (sorted(v) if isinstance(v, set) else v) for k, v in exp.items()}}
+    wit = {"files": {k: (v.decode() if isinstance(v, bytes) else v) for k, v in files.items()}, "args": args, "cwd_sub": "started/elsewhere" if cfg.get("invocation") == "other-directory" else None, "env": env, "stdin": stdin.decode(), "config": cfg, "model": {k: (sorted(v) if isinstance(v, set) else v) for k, v in exp.items()}}
     base = {"config": {k: v for k, v in cfg.items() if v not in (None, False, [])}, "model": wit["model"], "exit": r.exit}
     if r.timeout:
         out["inconclusive"].append(f"session timeout: {args} {env}")
@@ -290,7 +298,7 @@ def check_session(cfg, variant, out, C):
         return
     protected = [k for k in r.before if k.endswith(".py") or (k.startswith(".inline-snapshot/external/") and "-new" not in k and not k.endswith(".gitignore"))]
     sig_mode = exp["mode"] if exp["mode"] != "active" else ("active:" + ("+".join(sorted(exp["A"])) or "nothing"))
-    out["signatures"].add(f"{sig_mode}/{cfg['source']}/{cfg['envk']}/{'tty' if cfg['tty'] else 'notty'}")
+    out["signatures"].add(f"{sig_mode}/{cfg['source']}/{cfg['envk']}/{'tty' if cfg['tty'] else 'notty'}" + ("/other-directory" if cfg.get("invocation") == "other-directory" else ""))
     C["modes"][exp["mode"]] = C["modes"].get(exp["mode"], 0) + 1
     out["evaluations"] += 1
 
@@ -405,6 +413,12 @@ FIXED_CONFIGS = [
     dict(cli=["review", "fix"], source="cli", envk="plain", tty=True, answers=[False, True, False, False]),
     dict(cli=["fix", "report"], source="cli", envk="plain"),
     dict(cli=None, source="tui", tty=True, envk="plain", answers=[False, False, False, False]),
+    # started in another directory
+    dict(cli=["create", "fix", "trim", "update"], source="cli", envk="plain", invocation="other-directory"),
+    dict(cli=["fix"], source="cli", envk="plain", invocation="other-directory"),
+    dict(cli=["report"], source="cli", envk="plain", invocation="other-directory"),
+    dict(cli=["review"], source="cli", envk="plain", tty=True, answers=[True, True, False, False], invocation="other-directory"),
+    dict(cli=None, py_default=["create", "fix"], has_pyproject=True, source="pyproject", envk="plain", invocation="other-directory"),
 ]
 
 
@@ -460,7 +474,7 @@ def run_shard(args):
 def replay(data):
     w = data["witness"]
     proj = session.Project({k: v for k, v in w["files"].items()}, with_vp=False)
-    r = session.run_session(proj, w["args"], env=w["env"], stdin=w["stdin"].encode())
+    r = session.run_session(proj, w["args"], env=w["env"], stdin=w["stdin"].encode(), cwd_sub=w.get("cwd_sub"))
     proj.close()
     print("exit", r.exit, "changed", r.changed)
     print(r.stdout[-3000:])
